@@ -92,9 +92,11 @@ def monitor(ctx, st):
     if A.mode == "sf":
         prev = A.prev_patterns_root or []
         extra = [p for p in prev if p not in observe.default_patterns()]
-        if extra:
-            ctx.probe("sf_with_history_patterns_na")
-            return
+        if extra and any(os.path.isdir(p) for p in A.sf):
+            ig = observe.make_ignore(extra, A.cmd_root)
+            if any(ig(f) for f in A.files):
+                ctx.probe("sf_folder_with_history_patterns_na")
+                return
     # the set of histories that received a generation
     got = set(A.new)
     if got != A.exp_generation:
